@@ -84,7 +84,14 @@ EXPLANATION = (
     "outside an object, an indeterminate index or an undefined shift is a violation with the witness as counterexample; it also decides "
     "in place of a structural rule that met a shape it cannot classify (helper with two returns or an out-parameter, loop-carried word, "
     "pointer walk): agreement on every witness ends the run silently with the structural proof recorded as open; when the fold meets "
-    "something it does not model (an external call, goto) nothing is decided and the ANALYSIS-ERROR stands.")
+    "something it does not model (an external call, goto) nothing is decided and the ANALYSIS-ERROR stands. "
+    "Two rules look at the way the list travels. C20.R9 (event order at the caller): the state gsm48_decode_sysinfo4 tests in front of "
+    "its decoder call (`s->si1`, taken from the guard atoms dominating the call) must be established when the function that sets it "
+    "re-runs the parser for the stored SI4 -- reaching stores of that member at the re-run, folded against the guard's term; with no store "
+    "reaching the call the Mobile Allocation of an SI4 that came first is never decoded. C20.R10 (carriage downstream): for the constants "
+    "of the SETFH call site the size passed to vsnprintf in trx_ctrl_cmd and the longest parameter text (digits by argument type, the "
+    "text buffer by the bound C20.R5 proves) are folded; either the text always fits, or every truncating result rc in size..longest is "
+    "led to a negative return by the conditions behind the call (evaluated for each value, three-valued, conversions at the cast nodes).")
 ASSUMPTIONS = [
     "clang 14 parses the sliced function exactly as the layer23 build would (prelude models only declarations: stdint.h, EINVAL sign, struct gsm_sysinfo_freq {uint8_t mask;}, FREQ_TYPE_* values and array extents read from sysinfo.h, LOGP reduced to the evaluation of its value arguments)",
     "int is 32 bit: no counter in the function exceeds 2040, so machine arithmetic coincides with integer arithmetic",
@@ -4523,7 +4530,7 @@ def r6_readable(L, tier):
     for rel in caller_files(L, tier):
         cf = CFile(L, rel)
         for fname in sorted({fi[0] for (fi, pos, args) in cf.calls(FN)}):
-            fm = caller_slice(L, H, rel, fname, hdr)
+            fm = slice_of(L, H, rel, fname, hdr)
             for (n, c) in fm.calls:
                 if ctext(kids(c)[0]) != FN:
                     continue
@@ -4803,6 +4810,214 @@ def caller_files(L, tier):
     return rels
 
 
+# ============================================== callers: both inputs present
+
+def slice_of(L, H, rel, fname, hdr):
+    """caller_slice, parsed once per run"""
+    memo = L.__dict__.setdefault("_c20_slices", {})
+    key = (rel, fname)
+    if key not in memo:
+        memo[key] = caller_slice(L, H, rel, fname, hdr)
+    return memo[key]
+
+
+_STORE_OPS = r"(?:=(?!=)|\+\+|--|[-+*/%&|^]=|<<=|>>=)"
+
+
+def ready_states(fm, fname, n):
+    """What the object handed to `fname` must look like for the decoder call at CFG node `n` to be made: the guard
+    atoms that dominate the call and read a member of a structure parameter of `fname` (`s->si1`), resolved from the
+    conditions themselves (tested temporaries replaced by the value they hold).
+    -> [{"param", "pidx", "path", "var", "term", "pol", "cond"}]; a condition on the structure that is not a test of one
+    plain member ends the analysis."""
+    sp = [p for p in fm.params if "*" in fm.ptype.get(p, "") and "struct" in fm.ptype.get(p, "") and fm.never_written(p)]
+    out = []
+    for (c, l) in fm.g.guards(n):
+        if getattr(c, "cond", None) is None:
+            continue
+        named = {x.get("referencedDecl", {}).get("name") for x in walk(c.cond) if kind(x) == "DeclRefExpr"}
+        if c.kind != "cond" or not isinstance(l, bool):
+            if named & set(sp):
+                raise AnalysisError("%s(): the decoder call is guarded by a %s on `%s` (only if-conditions are resolved)" % (
+                    fname, c.kind, ctext(c.cond)[:40]))
+            continue
+        for (e, p) in conj_atoms(c.cond, l):
+            t, p2 = fm.norm(e, p)
+            t2 = fm.subst_temps(t, c)
+            if t2 != t:
+                t, p2 = fm.norm_term(t2, p2)
+            fv = free_vars(t)
+            mine = {v for v in fv if any(v.startswith(q + "->") for q in sp)}
+            if not mine:
+                if fv & set(sp):
+                    raise AnalysisError("%s(): the decoder call waits for `%s`, a condition on the whole object that the rule "
+                                        "cannot resolve to a member" % (fname, ctext(e)[:60]))
+                continue
+            if len(mine) != 1 or (fv - mine):
+                raise AnalysisError("%s(): the decoder call waits for `%s`, which is not a test of one member of the object" % (
+                    fname, ctext(e)[:60]))
+            var = mine.pop()
+            q, path = var.split("->", 1)
+            if not re.fullmatch(r"\w+(\.\w+)*", path):
+                raise AnalysisError("%s(): tested state `%s` is not a plain member of the object" % (fname, var))
+            try:
+                for v in (0, 1):
+                    ev(t, {var: v})
+            except Unknown as u:
+                raise AnalysisError("%s(): condition `%s` on the object cannot be folded (%s)" % (fname, ctext(e)[:60], u))
+            for w in fm.memwrites:
+                if ctext(kids(w.ast)[0]) == var and (n.id in fm.reach_succ(w.node) or w.node is n):
+                    raise AnalysisError("%s(): `%s` is written inside the function before the decoder call" % (fname, var))
+            out.append({"param": q, "pidx": fm.params.index(q), "path": path, "var": var, "term": t, "pol": p2, "cond": c})
+    return out
+
+
+def stmt_text(a):
+    t = ctext(a)
+    return t[1:-1] if t.startswith("(") and match_close(t, 0) == len(t) - 1 else t
+
+
+def reaching_stores(fm, lv, node):
+    """stores into the lvalue with canonical text `lv` whose value can still be there at `node` (+ "entry" when `node`
+    is reachable without passing any of them)"""
+    at = {}
+    for w in fm.memwrites:
+        if ctext(kids(w.ast)[0]) == lv:
+            at.setdefault(w.node.id, []).append(w)
+    out, seen = [], set()
+    work = [p for (p, _) in node.pred]
+    while work:
+        x = work.pop()
+        if x.id in seen:
+            continue
+        seen.add(x.id)
+        if x.id in at:
+            out.append(at[x.id][-1])
+            continue
+        if x is fm.g.entry:
+            out.append("entry")
+            continue
+        work += [p for (p, _) in x.pred]
+    return out
+
+
+def r9_ready(L, tier):
+    """C20.R9 -- caller half of the clause "the decoded hopping list contains exactly the cell-allocation channels whose
+    bit is set": it speaks about the list once the cell allocation (SI1) and the bitmap (SI4) are both present, in
+    whichever order they arrived.  The parser that feeds the decoder (gsm48_decode_sysinfo4) makes the decoder call only
+    in a certain state of the object (`s->si1` set: the guard atoms dominating the call, resolved by name from its
+    conditions); a function of sysinfo.c that establishes this state itself (stores the member) and re-runs the parser
+    for the stored message is the only place where a bitmap that arrived first gets decoded.  So at that re-run the
+    state must already be established: every store of the member that can reach the call holds a value for which the
+    parser's guard is passed, and the call cannot be reached without such a store (dominance of the store over the
+    call on the statement CFG).  If no store reaches the call the member still has the value it had before the first
+    message (clear), the parser skips the decoder and the list stays empty although bits are set: violation.  A call
+    that fails is tolerated when another re-run on the same object that passes lies on every way from it to the exit.
+    Mixed situations (some paths with, some without a store; stored values that are not constants; the member written
+    through another name or inside another function of sysinfo.c called from here) are not classified: ANALYSIS-ERROR."""
+    R = "C20.R9"
+    with open(L.unit(F_HDR), "r", encoding="utf-8", errors="surrogateescape") as f:
+        hdr = blank_strings(strip_comments(f.read()))
+    H = HeaderIndex(L)
+    cf = CFile(L, F_SYS)
+    nsites, nflags, nruns = 0, 0, 0
+    for pname in sorted({fi[0] for (fi, pos, args) in cf.calls(FN)}):
+        fm = slice_of(L, H, F_SYS, pname, hdr)
+        reqs = []
+        for (n, c) in fm.calls:
+            if ctext(kids(c)[0]) != FN:
+                continue
+            nsites += 1
+            for r in ready_states(fm, pname, n):
+                if (r["var"], r["pol"], r["term"]) not in [(x["var"], x["pol"], x["term"]) for x in reqs]:
+                    reqs.append(r)
+        nflags += len(reqs)
+        if not reqs:
+            continue
+        for gname in sorted({fi[0] for (fi, pos, args) in cf.calls(pname)} - {pname}):
+            g = slice_of(L, H, F_SYS, gname, hdr)
+            runs = [(n, c) for (n, c) in g.calls if ctext(kids(c)[0]) == pname]
+            for r in reqs:
+                member = r["path"].split(".")[-1]
+                pat = re.compile(r"(?:->|\.)\s*%s\s*%s|(?:\+\+|--)\s*\w+(?:\s*(?:->|\.)\s*\w+)*\s*(?:->|\.)\s*%s\b(?!\s*(?:->|\.|\[|\())" % (
+                    re.escape(member), _STORE_OPS, re.escape(member)))
+                # the member is written by another function of the file that is called from here: order unknown
+                called = {ctext(kids(c)[0]) for (_, c) in g.calls}
+                for (hn, _, b0, b1) in cf.funcs:
+                    if hn != gname and hn in called and pat.search(cf.clean[b0:b1]):
+                        raise AnalysisError("%s(): `%s` is written by %s(), which is called here: whether it is set when %s() "
+                                            "is re-run cannot be classified" % (gname, member, hn, pname))
+                verdicts = []
+                for (n, c) in runs:
+                    args = kids(c)[1:]
+                    if r["pidx"] >= len(args):
+                        raise AnalysisError("call of %s() in %s() with %d arguments" % (pname, gname, len(args)))
+                    a = strip(args[r["pidx"]], casts=True)
+                    nm = a.get("referencedDecl", {}).get("name") if kind(a) == "DeclRefExpr" else None
+                    if nm is None or not g.never_written(nm) or nm not in g.params:
+                        raise AnalysisError("%s(): the object handed to %s() is `%s`, not a parameter that is never "
+                                            "reassigned (unclassifiable)" % (gname, pname, ctext(args[r["pidx"]])[:40]))
+                    lv = "%s->%s" % (nm, r["path"])
+                    mine = [w for w in g.memwrites if ctext(kids(w.ast)[0]) == lv]
+                    other = [w for w in g.memwrites if w not in mine and kind(strip(kids(w.ast)[0])) == "MemberExpr" and
+                             strip(kids(w.ast)[0]).get("name") == member]
+                    if other:
+                        raise AnalysisError("%s(): member `%s` is also written as `%s` (aliasing not modelled)" % (
+                            gname, member, ctext(kids(other[0].ast)[0])[:40]))
+                    if not mine:
+                        continue            # this function does not establish the state: nothing to order
+                    rs = reaching_stores(g, lv, n)
+                    good, bad, unk = [], [], []
+                    for w in rs:
+                        if w == "entry":
+                            v = 0           # not received yet: the state the object has before the first message
+                        else:
+                            v = g.tu.fold(w.val) if w.how == "assign" and w.val is not None else None
+                        if v is None:
+                            unk.append(w)
+                        elif bool(ev(r["term"], {r["var"]: v})) == r["pol"]:
+                            good.append(w)
+                        else:
+                            bad.append(w)
+                    verdicts.append((n, c, lv, mine, good, bad, unk))
+                passing = [v[0] for v in verdicts if v[4] and not v[5] and not v[6]]
+                for (n, c, lv, mine, good, bad, unk) in verdicts:
+                    nruns += 1
+                    if unk or (good and bad):
+                        if any(g.g.must_pass(n, [p]) for p in passing if p is not n):
+                            continue
+                        raise AnalysisError("%s(): whether `%s` is set when %s() is re-run depends on the path / on a value "
+                                            "that is not a constant (unclassifiable)" % (gname, lv, pname))
+                    ok = bool(good) or any(g.g.must_pass(n, [p]) for p in passing if p is not n)
+                    if not ok and any(g.g.reachable(n, p) for p in passing if p is not n):
+                        raise AnalysisError("%s(): %s() is re-run with `%s` not yet established, and once more with it on some of the "
+                                            "ways from there to the exit: whether the second run always follows cannot be classified" % (
+                                                gname, pname, lv))
+                    want = "`%s` %s" % (lv, "set" if r["pol"] else "clear")
+                    if good:
+                        found = "%s: `%s` precedes the call on every path" % (want, "`, `".join(sorted({stmt_text(w.ast) for w in good})))
+                    elif ok:
+                        found = "not yet, but a later re-run of %s() on every way to the exit is made in that state" % pname
+                    else:
+                        later = sorted({stmt_text(w.ast) for w in mine if w not in bad})
+                        found = "%s reaches the call%s: %s() skips %s(), the hopping list stays empty although the cell " \
+                                "allocation and the bitmap are both present (message order: bitmap first)" % (
+                                    "only `%s`" % "`, `".join(sorted({stmt_text(w.ast) for w in bad if w != "entry"})) if [w for w in bad if w != "entry"]
+                                    else "no store of `%s`" % lv,
+                                    "; `%s` comes after it" % "`, `".join(later) if later else "", pname, FN)
+                    L.ob(R, F_SYS, gname, "re-run of %s() for the stored message: the state that %s() tests in front of its call of "
+                         "%s() (`%s` %s) is established before the call is made" % (
+                             pname, pname, FN, r["var"], "set" if r["pol"] else "clear"),
+                         want, found, ok, g.line(c))
+    L.floor(R, "call sites of %s in sysinfo.c whose dominating guards were resolved" % FN, nsites, 1)
+    # a parser that makes the decoder call whatever the state of the object awaits nothing: no order to check then
+    L.floor(R, "states of the object the parser tests in front of the decoder call (s->si1; none: nothing is awaited)", nflags, 0)
+    L.floor(R, "re-runs of the parser by the function that establishes the awaited state (gsm48_decode_sysinfo1)", nruns, 1 if nflags else 0)
+    L.assume("C20.R9: the received-flags of struct gsm48_sysinfo are clear before the first message of a cell (the object is "
+             "zeroed when a cell is selected); functions outside sysinfo.c that are called between the store of a flag and the "
+             "re-run of the parser do not write it")
+
+
 # ================================================================= call sites
 
 def r2_callers(L, K, tier):
@@ -4944,10 +5159,15 @@ def entry_test(fm, c0, region, MLEN):
     return True, "the first loop test holds for every non-empty allocation"
 
 
-def r5_setfh(L):
+def trx_unit(L):
+    return TU(L.repo, "trxcon", "src/trx_if.c", L=L)
+
+
+def r5_setfh(L, tu=None, facts=None):
     R = "C20.R5"
     fn = "trx_if_cmd_setfh"
-    tu = TU(L.repo, "trxcon", "src/trx_if.c", L=L)
+    tu = tu or trx_unit(L)
+    facts = {} if facts is None else facts
     fd = tu.func(fn)
     L.fn(F_TRX, fn)
     ps = tu.fparams(fd)
@@ -4979,6 +5199,7 @@ def r5_setfh(L):
         args = kids(c)[1:]
         if len(args) < 3:
             raise AnalysisError("snprintf with %d arguments" % len(args))
+        nbad = len([o for o in L.obs if not o.ok])
         dst, siz, fmt = strip(args[0]), strip(args[1]), strip(args[2], casts=True)
         PTR = dst.get("referencedDecl", {}).get("name") if kind(dst) == "DeclRefExpr" else None
         SZ = siz.get("referencedDecl", {}).get("name") if kind(siz) == "DeclRefExpr" else None
@@ -5092,6 +5313,373 @@ def r5_setfh(L):
             L.ob(R, F_TRX, fn, "terminator store `%s` stays inside `%s[%d]` (at least one pair precedes it)" % (ctext(w.ast), ARR, E),
                  "0 <= offset < %d" % E,
                  "offset in %s..%d; %s" % (mlen + off if mlen is not None else "?", Z0 + off, why), ok1 and lo_ok and hi_ok, fm.line(w.ast))
+            if len([o for o in L.obs if not o.ok]) == nbad and w.how == "assign" and fm.tu.fold(w.val) == 0:
+                # cursor - buffer <= Z0 (updates only under rc <= remaining), NUL stored at cursor + off: the text that
+                # is handed on is at most Z0 + off characters long
+                facts.setdefault("strmax", {})[ARR] = max(Z0 + off, facts.get("strmax", {}).get(ARR, 0))
+
+
+# ------------------------------------------------- downstream: carriage of the text
+
+PRINTF_SIZED = ("snprintf", "__builtin_snprintf")
+VPRINTF_SIZED = ("vsnprintf", "__builtin_vsnprintf")
+_CONV = re.compile(r"%([-+ #0]*)(\*|\d*)(?:\.(\*|\d*))?(hh|h|ll|l|z|j|t)?([diuxXocs%])")
+
+
+def lit_text(lit):
+    """characters of a C string literal as clang prints it (escapes decoded to one placeholder character each)"""
+    if not isinstance(lit, str) or len(lit) < 2 or lit[0] != '"' or lit[-1] != '"':
+        return None
+    return re.sub(r"\\(x[0-9a-fA-F]+|[0-7]{1,3}|.)", "\1", lit[1:-1])
+
+
+def digits(lo, hi, conv):
+    """(min, max) number of characters of the integers lo..hi printed with conversion `conv` (no flags)"""
+    def one(v):
+        if conv in ("d", "i", "u"):
+            return len(str(v))
+        return len(("%x" if conv in "xX" else "%o") % v)
+    cand = [lo, hi] + ([0] if lo <= 0 <= hi else []) + ([-1] if lo <= -1 <= hi else [])
+    ns = [one(v) for v in cand]
+    return min(ns), max(ns)
+
+
+class CallEval(object):
+    """Integer / truth values of expressions of a callee for one call site: parameters stand for the call's constant
+    arguments, a local for its single reaching definition, the result of a [v]snprintf call for the length of the text it
+    formats (or the value under test in `given`); conversions are applied at the cast nodes clang inserted.  None =
+    not determined."""
+
+    def __init__(self, fm, bind, strmax=None):
+        self.fm, self.tu, self.bind = fm, fm.tu, bind       # bind: parameter name -> argument AST at the call site
+        self.given = {}                                     # id(CallExpr) -> value under test
+        self.strmax = strmax or (lambda e: None)
+        self.tainted = False
+
+    def sval(self, e):
+        e = strip(e, casts=True)
+        if kind(e) == "StringLiteral":
+            return lit_text(e.get("value"))
+        if kind(e) == "DeclRefExpr":
+            nm = e.get("referencedDecl", {}).get("name")
+            if e.get("referencedDecl", {}).get("kind") == "ParmVarDecl" and nm in self.bind and self.fm.never_written(nm):
+                b = strip(self.bind[nm], casts=True)
+                return lit_text(b.get("value")) if kind(b) == "StringLiteral" else None
+        return None
+
+    def _wrap(self, v, node):
+        it = int_type(self.tu, node.get("type", {}))
+        if v is None or it is None:
+            return v
+        bits, signed = it
+        v &= (1 << bits) - 1
+        return v - (1 << bits) if signed and v >> (bits - 1) else v
+
+    def depends(self, e, node):
+        """does the expression (read at CFG node `node`) depend on a call whose result is under test?"""
+        for x in walk(e):
+            if kind(x) == "CallExpr" and id(x) in self.given:
+                return True
+            if kind(x) == "DeclRefExpr" and x.get("referencedDecl", {}).get("name") in self.fm.locals:
+                for d in self.fm.reaching_defs(x["referencedDecl"]["name"], node):
+                    if d != "undef" and d.val is not None and d.node is not node and \
+                            any(kind(y) == "CallExpr" and id(y) in self.given for y in walk(d.val)):
+                        return True
+        return False
+
+    def ival(self, e, node, depth=0):
+        if e is None or depth > 12:
+            return None
+        k = kind(e)
+        ks = kids(e)
+        if k in ("ParenExpr", "ConstantExpr"):
+            return self.ival(ks[0], node, depth)
+        if k == "ImplicitCastExpr":
+            v = self.ival(ks[0], node, depth)
+            return self._wrap(v, e) if e.get("castKind") == "IntegralCast" else v
+        if k == "CStyleCastExpr":
+            return self._wrap(self.ival(ks[0], node, depth), e)
+        if k == "CallExpr":
+            if id(e) in self.given:
+                return self.given[id(e)]
+            if ctext(ks[0]) in PRINTF_SIZED and len(ks) >= 4:
+                size = self.ival(ks[2], node, depth + 1)
+                b = self.fmt_bounds(ks[3], ks[4:], node)
+                if b is None or b[0] != b[1] or size is None or b[0] >= size:
+                    return None             # length unknown, or the text is truncated: what follows is not modelled
+                return b[0]
+            return None
+        v = self.tu.fold(e)
+        if v is not None:
+            return v
+        if k == "DeclRefExpr":
+            rd = e.get("referencedDecl", {})
+            nm = rd.get("name")
+            if rd.get("kind") == "ParmVarDecl":
+                if nm in self.bind and self.fm.never_written(nm):
+                    return self.tu.fold(self.bind[nm])
+                return None
+            if nm in self.fm.locals and nm not in self.fm.addr and nm not in self.fm.dups:
+                defs = self.fm.reaching_defs(nm, node)
+                if len(defs) == 1 and defs[0] != "undef" and defs[0].how in ("init", "assign") and defs[0].node is not node:
+                    return self._wrap(self.ival(defs[0].val, defs[0].node, depth + 1), self.fm.locals[nm])
+            return None
+        if k == "UnaryOperator":
+            v = self.ival(ks[0], node, depth)
+            if v is None:
+                return None
+            r = {"-": -v, "+": v, "~": ~v, "!": int(not v)}.get(e.get("opcode"))
+            return self._wrap(r, e) if r is not None else None
+        if k == "BinaryOperator":
+            op = e.get("opcode")
+            if op in ("&&", "||"):
+                t = self.tval(e, node, depth)
+                return None if t is None else int(t)
+            a, b = self.ival(ks[0], node, depth), self.ival(ks[1], node, depth)
+            if a is None or b is None:
+                return None
+            try:
+                r = {"+": lambda: a + b, "-": lambda: a - b, "*": lambda: a * b,
+                     "/": lambda: int(a / b) if b else None, "%": lambda: a - b * int(a / b) if b else None,
+                     "<<": lambda: a << b if 0 <= b < 64 else None, ">>": lambda: a >> b if 0 <= b < 64 else None,
+                     "&": lambda: a & b, "|": lambda: a | b, "^": lambda: a ^ b,
+                     "<": lambda: int(a < b), ">": lambda: int(a > b), "<=": lambda: int(a <= b), ">=": lambda: int(a >= b),
+                     "==": lambda: int(a == b), "!=": lambda: int(a != b)}[op]()
+            except KeyError:
+                return None
+            return self._wrap(r, e) if r is not None else None
+        return None
+
+    def tval(self, e, node, depth=0):
+        """True / False / None (three-valued: `a || b` is true as soon as one side is)"""
+        x = strip(e)
+        if kind(x) == "UnaryOperator" and x.get("opcode") == "!":
+            t = self.tval(kids(x)[0], node, depth)
+            return None if t is None else not t
+        if kind(x) == "BinaryOperator" and x.get("opcode") in ("&&", "||"):
+            a, b = self.tval(kids(x)[0], node, depth), self.tval(kids(x)[1], node, depth)
+            if x.get("opcode") == "&&":
+                return False if a is False or b is False else (True if a and b else None)
+            return True if a or b else (False if a is False and b is False else None)
+        v = self.ival(e, node, depth)
+        return None if v is None else bool(v)
+
+    def fmt_bounds(self, fmt, args, node):
+        """(min, max) number of characters the format `fmt` produces for the argument expressions `args`"""
+        f = self.sval(fmt)
+        if f is None:
+            return None
+        args = list(args)
+        lo = hi = 0
+        i = 0
+        while i < len(f):
+            if f[i] != "%":
+                lo, hi, i = lo + 1, hi + 1, i + 1
+                continue
+            m = _CONV.match(f, i)
+            if not m or m.group(2) == "*" or m.group(3) == "*":
+                return None
+            i = m.end()
+            conv = m.group(5)
+            if conv == "%":
+                lo, hi = lo + 1, hi + 1
+                continue
+            if not args:
+                return None
+            a = args.pop(0)
+            if conv == "s":
+                sv = self.sval(a)
+                if sv is not None:
+                    n0 = n1 = len(sv)
+                else:
+                    n1 = self.strmax(a)
+                    if n1 is None:
+                        return None
+                    n0 = 0
+                if m.group(3) not in (None, ""):
+                    n0, n1 = min(n0, int(m.group(3))), min(n1, int(m.group(3)))
+            elif conv == "c":
+                n0 = n1 = 1
+            else:
+                if m.group(1).strip("-0") or m.group(3) not in (None, ""):
+                    return None             # sign / alternate-form flags, precision: not modelled
+                v = self.ival(a, node)
+                x = strip(a)                # the default argument promotions preserve the value
+                it = int_type(self.tu, x.get("type", {}))
+                if v is not None:
+                    rng = (v, v)
+                elif it is None or it[0] > 32 and m.group(4) not in ("l", "ll", "z", "j", "t"):
+                    return None
+                else:
+                    rng = (-(1 << (it[0] - 1)), (1 << (it[0] - 1)) - 1) if it[1] else (0, (1 << it[0]) - 1)
+                if conv in "uxXo" and rng[0] < 0:
+                    w = max(32, it[0]) if it else 32
+                    rng = (0, (1 << w) - 1)           # a negative value is printed modulo 2^w
+                n0, n1 = digits(rng[0], rng[1], conv)
+            w = int(m.group(2)) if m.group(2) else 0
+            lo, hi = lo + max(n0, w), hi + max(n1, w)
+        return (lo, hi)
+
+
+def r10_carriage(L, tu, facts):
+    """C20.R10 -- downstream half of "the decoded hopping list contains exactly the cell-allocation channels whose bit is
+    set ... never a channel outside the cell allocation", at the consumer that turns the list into the SETFH command:
+    the command that is queued carries every (Rx, Tx) pair of the Mobile Allocation text intact, or the request is
+    refused.  The text composed in trx_if_cmd_setfh is handed to a formatting function (trx_ctrl_cmd) whose
+    vsnprintf() cuts whatever does not fit the size passed to it -- a cut frequency is another channel.  For the
+    constants of this call site (verb and format literals, types of the arguments, extent of the text buffer) the rule
+    folds  S = the size argument actually passed (locals through their reaching definitions, `len` = length of the
+    formatted prefix)  and  M = the longest parameter text (digits by argument type; the text buffer by the bound
+    C20.R5 proves for it: initial room + offset of the terminator), and demands
+      (a) M < S: nothing this caller can compose is cut, or
+      (b) every truncating result is refused: for each value rc in S..M of the vsnprintf result (C99: rc >= size means
+          truncated) the conditions behind the call are evaluated (three-valued, conversions at clang's cast nodes)
+          and every return that can be reached yields a negative constant.
+    With neither, the value rc for which a non-negative return is reached is the counterexample (`rc > size` lets
+    rc == size pass: one character cut).  Values the rule cannot determine end the analysis."""
+    R = "C20.R10"
+    fn = "trx_if_cmd_setfh"
+    fd = tu.func(fn)
+    L.fn(F_TRX, fn)
+    fm = FM(tu, fd, dup_ok=True)
+
+    def text_buffer(e):
+        x = strip(e, casts=True)
+        if kind(x) == "DeclRefExpr" and x.get("referencedDecl", {}).get("name") in fm.locals:
+            qt = fm.locals[x["referencedDecl"]["name"]].get("type", {}).get("qualType", "")
+            m = re.fullmatch(r"(?:const\s+)?(?:char|unsigned char|uint8_t)\s*\[(\d+)\]", qt.strip())
+            if m:
+                return x["referencedDecl"]["name"], int(m.group(1))
+        return None
+
+    emits = [(n, c) for (n, c) in fm.calls if any(text_buffer(a) for a in kids(c)[1:]) and
+             ctext(kids(c)[0]) not in PRINTF_SIZED and ctext(kids(c)[0]) in tu.functions]
+    L.floor(R, "calls that hand the composed allocation text on (trx_ctrl_cmd)", len(emits), 1)
+    nfmt = 0
+    for (n, c) in emits:
+        callee = ctext(kids(c)[0])
+        fd2 = tu.functions.get(callee)
+        if fd2 is None or not any(kind(x) == "CompoundStmt" for x in kids(fd2)):
+            raise AnalysisError("%s(): the allocation text is handed to %s(), which has no definition in trx_if.c" % (fn, callee))
+        L.fn(F_TRX, callee)
+        fm2 = FM(tu, fd2, dup_ok=True)
+        args = kids(c)[1:]
+        if not fd2.get("variadic") or len(args) < len(fm2.params):
+            raise AnalysisError("%s(): %s() does not take the text as a variadic argument (unclassifiable)" % (fn, callee))
+        bind = dict(zip(fm2.params, args))
+        var = args[len(fm2.params):]
+        loose = {}
+
+        def strmax(e, loose=loose):
+            tb = text_buffer(e)
+            if tb is None:
+                return None
+            tight = facts.get("strmax", {}).get(tb[0])
+            if tight is None:
+                loose[tb[0]] = tb[1] - 1
+            return tb[1] - 1 if tight is None else min(tight, tb[1] - 1)
+        site = CallEval(fm, {}, strmax)               # the caller's view: types and buffers of the variadic arguments
+        vs = [(n2, c2) for (n2, c2) in fm2.calls if ctext(kids(c2)[0]) in VPRINTF_SIZED]
+        if not vs:
+            raise AnalysisError("%s() does not format its variadic arguments with vsnprintf (unclassifiable)" % callee)
+        for (n2, c2) in vs:
+            a2 = kids(c2)[1:]
+            if len(a2) != 4:
+                raise AnalysisError("vsnprintf with %d arguments" % len(a2))
+            pf = strip(a2[2], casts=True)
+            pfn = pf.get("referencedDecl", {}).get("name") if kind(pf) == "DeclRefExpr" else None
+            if pfn not in fm2.params or not fm2.never_written(pfn):
+                raise AnalysisError("%s(): the format of vsnprintf is `%s`, not a parameter of the function" % (callee, ctext(a2[2])[:30]))
+            if fm2.params.index(pfn) != len(fm2.params) - 1:
+                raise AnalysisError("%s(): the format parameter `%s` is not the last named parameter" % (callee, pfn))
+            nfmt += 1
+            ce = CallEval(fm2, bind)
+            S = ce.ival(a2[1], n2)
+            if S is None or S < 1:
+                raise AnalysisError("%s(): size argument `%s` of vsnprintf cannot be folded for the call in %s()" % (
+                    callee, ctext(a2[1])[:50], fn))
+            b = site.fmt_bounds(bind[pfn], var, n)
+            if b is None:
+                raise AnalysisError("%s(): the length of the text `%s` formats for the arguments of the call cannot be bounded" % (
+                    fn, ctext(bind[pfn])[:30]))
+            M = b[1]
+            fits = M < S
+            # (b) which truncating results get through
+            passed, unknown, refused = None, False, 0
+            if not fits:
+                for v in range(S, M + 1):
+                    ce.given = {id(c2): v}
+                    acc, unk, ref = carriage_walk(ce, fm2, n2)
+                    refused += ref
+                    if unk:
+                        unknown = True
+                    if acc is not None and passed is None and not unk:
+                        passed = (v, acc)           # no condition on the way depended on the result without being resolved
+                ce.given = {}
+            ok = fits or (passed is None and not unknown)
+            if not ok and passed is None:
+                raise AnalysisError("%s(): a condition behind vsnprintf that depends on its result cannot be evaluated, so whether a "
+                                    "truncated `%s` command is refused is not decided" % (callee, ctext(bind[pfn])[:30]))
+            if not ok and loose:
+                raise AnalysisError("%s(): the length of the text in `%s` is only bounded by the extent of the array (C20.R5 did not "
+                                    "establish the cursor bound), so the truncated command found for rc = %d may not be composable" % (
+                                        fn, sorted(loose)[0], passed[0]))
+            if fits:
+                found = "longest text %d < size %d: nothing is cut" % (M, S)
+            elif ok:
+                found = "texts of up to %d characters meet size %d; every result %d..%d ends in a negative return" % (M, S, S, M)
+            else:
+                found = "texts of up to %d characters meet size %d (room for %d); the result rc = %d (%d character%s cut) reaches " \
+                        "`%s`: the command is queued with its last frequency cut" % (
+                            M, S, S - 1, passed[0], passed[0] - S + 1, "" if passed[0] == S else "s", passed[1])
+            verbs = [lit_text(strip(bind[q], casts=True).get("value")) for q in fm2.params
+                     if q != pfn and kind(strip(bind[q], casts=True)) == "StringLiteral"]
+            L.ob(R, F_TRX, callee, "the `%s` command %s() composes for %s() carries the whole Mobile Allocation text: it always fits the "
+                 "size passed to vsnprintf, or every truncating result (rc >= size) is refused" % (
+                     " ".join(verbs + [lit_text(strip(bind[pfn], casts=True).get("value")) or "?"]), callee, fn),
+                 "longest text < size, or rc >= size -> negative return", found, ok, fm2.line(c2))
+    L.floor(R, "vsnprintf calls formatting the SETFH parameters", nfmt, 1)
+    L.assume("C20.R10: vsnprintf returns the untruncated length and writes at most size - 1 characters (C99); every length up to the "
+             "bound of the text buffer occurs for some Mobile Allocation (pairs of 14 and 16 characters, 1-3 digit HSN / MAIO); a "
+             "negative return of the formatting function means the command is not sent")
+
+
+def carriage_walk(ce, fm, start):
+    """Follow the statement CFG from the call at `start` with the values of `ce`: a condition that evaluates is followed on
+    its branch only.  -> (text of a reachable return that does not yield a negative constant | None,
+    an unresolved condition / return value depended on the result, number of refusing returns reached)"""
+    seen, work = set(), [s for (s, _) in start.succ]
+    acc, unk, ref = None, False, 0
+    if start.kind == "cond":
+        t = ce.tval(start.cond, start)
+        unk = t is None and ce.depends(start.cond, start)
+        work = [s for (s, l) in start.succ if t is None or l == t]
+    while work:
+        x = work.pop()
+        if x.id in seen:
+            continue
+        seen.add(x.id)
+        if x is fm.g.exit:
+            acc = acc or "end of function"
+            continue
+        if x.kind == "stmt" and x.ast is not None and kind(x.ast) == "ReturnStmt":
+            rv = kids(x.ast)[0] if kids(x.ast) else None
+            v = ce.ival(rv, x) if rv is not None else None
+            if v is not None and v < 0:
+                ref += 1
+            elif v is None and rv is not None and ce.depends(rv, x):
+                unk = True
+            else:
+                acc = acc or ("return %s" % (ctext(rv)[:30] if rv is not None else "")).strip()
+            continue
+        if x.kind == "cond" and getattr(x, "cond", None) is not None:
+            t = ce.tval(x.cond, x)
+            if t is None and ce.depends(x.cond, x):
+                unk = True
+            work += [s for (s, l) in x.succ if t is None or l == t]
+        else:
+            work += [s for (s, _) in x.succ]
+    return acc, unk, ref
 
 
 class ProofOnly(object):
@@ -5153,7 +5741,11 @@ def decide(L, sl, pending, tier):
 
 def run(L, tier):
     L.stage(r6_readable, L, tier)       # callers: bitmap octets exist (own slices, independent of the decoder's)
-    L.stage(r5_setfh, L)                # downstream consumer
+    L.stage(r9_ready, L, tier)          # callers: the decoder is run once cell allocation and bitmap are both present
+    facts = {}
+    tuT = L.stage(trx_unit, L)
+    L.stage(r5_setfh, L, tuT, facts)    # downstream consumer: the text of the allocation is composed inside its buffer
+    L.stage(r10_carriage, L, tuT, facts)    # ... and reaches the command untruncated (uses the bound R5 proved, if any)
     sl = L.stage(build_slice, L)
     L.stage(lambda x: r2_callers(L, x[1], tier), sl)        # caller buffers (lexer; independent of the decoder's shape)
     pending = list(sl[1]["refused"]) if sl is not STAGE_FAILED else []
